@@ -366,6 +366,16 @@ def classify_problem(c, s, out):
         if toks and toks[-1].text == b";":
             return KEY_END_SEMI
     names = [x if isinstance(x, str) else x.get("rule") for x in rules] if "rules" in c else DEFAULT_RULES
+    if "remove_spaces" in names:
+        from . import c18
+        if c18.minus_before_comment(s):
+            return c18.KEY_MINUS
+        if c18.dot_number_before_word(s):
+            return c18.KEY_DOTNUM
+    if "remove_comments" in names:
+        from . import c18
+        if c18.dot_number_before_word(s):
+            return c18.KEY_DOTNUM
     if "remove_unused_if_branch" in names and has_constant_elseif(s):
         return KEY_ELSEIF_TRUE
     if "remove_method_definition" in names and method_with_multiline_parameters(s) and not (
